@@ -20,8 +20,6 @@ impl LdapConnSettings {
     ensures r == self.starttls,   // (nth=1: the definition compiled when TLS support is in; the other cfg returns false)
 //@end
 //@lift name=LdapConnSettings::set_starttls file=src/conn.rs impl="impl\s+LdapConnSettings\s*\{" fn=set_starttls
-//@ sub "fn set_starttls(mut self, starttls: bool) -> Self" => "fn set_starttls(self, starttls: bool) -> Self"
-//@ sub "self.starttls = starttls;\n        self" => "let mut verif_self = self; verif_self.starttls = starttls;\n        verif_self"
 //@ ret r
 //@ spec
     ensures r.starttls == starttls, r.conn_timeout == self.conn_timeout, r.no_tls_verify == self.no_tls_verify, r.std_stream == self.std_stream,
@@ -108,6 +106,13 @@ impl From<Elapsed> for LdapError { #[verifier::external_body] fn from(e: Elapsed
 #[verifier::external_body]
 pub fn verif_str_eq(a: &str, b: &str) -> (r: bool) ensures r == (a == b) { unimplemented!() }
 
+// what from_url_with_settings (lifted below) returns, as a function of its arguments
+pub open spec fn establish(settings: LdapConnSettings, url: Url, r: Result<Pair>) -> bool {
+    if url.scheme_of() == "ldapi" { r == unix_outcome(url, settings) } else {
+        let s2 = LdapConnSettings { conn_timeout: None, starttls: settings.starttls, no_tls_verify: settings.no_tls_verify, std_stream: settings.std_stream };
+        match settings.conn_timeout { Some(t) => if timed_out(t, url, s2) { r is Err } else { r == tcp_outcome(url, s2) }, None => r == tcp_outcome(url, s2) }
+    }
+}
 //@lift name=from_url_with_settings file=src/conn.rs fn=from_url_with_settings
 //@ sub "Result<(Self, Ldap)>" => "Result<Pair>"
 //@ sub "url.scheme() == \"ldapi\"" => "verif_str_eq(url.scheme(), \"ldapi\")"
@@ -122,6 +127,57 @@ pub fn verif_str_eq(a: &str, b: &str) -> (r: bool) ensures r == (a == b) { unimp
                 Some(t) => if timed_out(t, *url, s2) { r is Err } else { r == tcp_outcome(*url, s2) },
                 None => r == tcp_outcome(*url, s2),
             } }), //# C18.connection_timeout_bounds_the_whole_tcp_establishment
+        establish(settings, *url, r),
+//@end
+
+// ---- the public entry points: with_settings / new / from_url -- parse the URL, pass the settings on unchanged
+pub struct ParseError { pub g: u8 }
+pub uninterp spec fn url_parse(s: &str) -> core::result::Result<Url, ParseError>;
+impl Url { #[verifier::external_body] pub fn parse(s: &str) -> (r: core::result::Result<Url, ParseError>) ensures r == url_parse(s) { unimplemented!() } }
+impl vstd::std_specs::convert::FromSpecImpl<ParseError> for LdapError { open spec fn obeys_from_spec() -> bool { false } open spec fn from_spec(e: ParseError) -> LdapError { LdapError::Other(0) } }
+impl From<ParseError> for LdapError { #[verifier::external_body] fn from(e: ParseError) -> (r: LdapError) { unimplemented!() } }
+// #[derive(Default)] on LdapConnSettings: no timeout, no StartTLS, certificate verification ON, no pre-opened stream
+impl Default for LdapConnSettings {
+    #[verifier::external_body]
+    fn default() -> (r: LdapConnSettings) ensures r.conn_timeout is None, !r.starttls, !r.no_tls_verify, r.std_stream is None { unimplemented!() }
+}
+pub open spec fn default_settings(s: LdapConnSettings) -> bool { s.conn_timeout is None && !s.starttls && !s.no_tls_verify && s.std_stream is None }
+impl LdapConnSettings {
+    // the other setters (proved on the real text in unit V-tls); here so that a change which calls one is decided
+    #[verifier::external_body] pub fn set_no_tls_verify(self, no_tls_verify: bool) -> (r: Self) ensures r == (LdapConnSettings { no_tls_verify: no_tls_verify, ..self }) { unimplemented!() }
+    #[verifier::external_body] pub fn set_conn_timeout(self, timeout: Duration) -> (r: Self) ensures r == (LdapConnSettings { conn_timeout: Some(timeout), ..self }) { unimplemented!() }
+    #[verifier::external_body] pub fn set_std_stream(self, stream: StdStream) -> (r: Self) ensures r == (LdapConnSettings { std_stream: Some(stream), ..self }) { unimplemented!() }
+//@lift name=LdapConnSettings::new file=src/conn.rs impl="impl\s+LdapConnSettings\s*\{" fn=new
+//@ ret r
+//@ spec
+    ensures default_settings(r), //# C17+C18.default_settings_no_starttls_verification_on_no_timeout
+//@end
+}
+//@lift name=LdapConnAsync::with_settings file=src/conn.rs impl="impl\s+LdapConnAsync\s*\{" fn=with_settings
+//@ sub "Result<(Self, Ldap)>" => "Result<Pair>"
+//@ sub "Self::from_url_with_settings(" => "from_url_with_settings("
+//@ ret r
+//@ spec
+    ensures
+        url_parse(url) is Err ==> r is Err, //# C18.an_unparsable_url_is_an_error
+        url_parse(url) matches Ok(u) ==> establish(settings, u, r), //# C17+C18.with_settings_passes_the_callers_settings_on_unchanged
+//@end
+//@lift name=LdapConnAsync::new file=src/conn.rs impl="impl\s+LdapConnAsync\s*\{" fn=new
+//@ sub "Result<(Self, Ldap)>" => "Result<Pair>"
+//@ sub "Self::with_settings(" => "with_settings("
+//@ sub "fn new(" => "fn ldapconnasync_new("
+//@ ret r
+//@ spec
+    ensures
+        url_parse(url) is Err ==> r is Err,
+        url_parse(url) matches Ok(u) ==> exists|s: LdapConnSettings| default_settings(s) && #[trigger] establish(s, u, r), //# C17+C18.new_uses_the_default_settings
+//@end
+//@lift name=LdapConnAsync::from_url file=src/conn.rs impl="impl\s+LdapConnAsync\s*\{" fn=from_url
+//@ sub "Result<(Self, Ldap)>" => "Result<Pair>"
+//@ sub "Self::from_url_with_settings(" => "from_url_with_settings("
+//@ ret r
+//@ spec
+    ensures exists|s: LdapConnSettings| default_settings(s) && #[trigger] establish(s, *url, r), //# C17+C18.from_url_uses_the_default_settings
 //@end
 
 // ---- new_unix (cfg(unix)): the ldapi path -- which socket path is connected to, and the refusals before any connect
